@@ -216,7 +216,7 @@ func buildOps() []hop {
 		ops = append(ops, hop{fmt.Sprintf("random-stream-%d", a), func() (string, []string) {
 			s, err := otp.RandomSecret(otp.Algorithm(a))
 			if err != nil {
-				return "error: " + err.Error(), nil
+				return "error: " + errText(err), nil
 			}
 			return posStream.claim(s, []int{20, 32, 64}[a]), []string{s}
 		}, "ok"})
@@ -235,6 +235,24 @@ func buildOps() []hop {
 		_, e3 := otp.ParseDecimal64BigEndian("18446744073709551616")
 		return fmt.Sprintf("%x|%x|%v%v%v|%x", c, d, e1, e2, e3 != nil, otp.To8ByteBigEndian(1<<40)), nil
 	}, fmt.Sprintf("%x|%x|%v%v%v|%x", q2, be8(^uint64(0)), nil, nil, true, be8(1<<40))})
+	// helper calls that are REFUSED (each for another reason), followed in histories by accepted ones of fewer
+	// digits: whatever a refusal leaves in scratch memory must not reach a later answer
+	q0, _ := ref.DecimalQuestion("0")
+	ops = append(ops, hop{"helpers-refused", func() (string, []string) {
+		_, e1 := otp.ParseDecimalChallengeRFC6287("-123456789")
+		_, e2 := otp.ParseDecimalChallengeRFC6287("12x4")
+		_, e3 := otp.ParseDecimalChallengeRFC6287(strings.Repeat("9", 400))
+		_, e4 := otp.ParseHexTimestamp("zz")
+		_, e5 := otp.ParseDecimalToBigEndian8("-1")
+		_, e6 := otp.HexInputToOCRA("zz", "3132", "", "", "")
+		return fmt.Sprint(e1 != nil, e2 != nil, e3 != nil, e4 != nil, e5 != nil, e6 != nil), nil
+	}, fmt.Sprint(true, true, true, true, true, true)})
+	ops = append(ops, hop{"helpers-short", func() (string, []string) {
+		c, e1 := otp.ParseDecimalChallengeRFC6287("0")
+		t, e2 := otp.ParseHexTimestamp("1")
+		d, e3 := otp.ParseDecimalToBigEndian8("7")
+		return fmt.Sprintf("%x|%x|%x|%v%v%v", c, t, d, e1, e2, e3), nil
+	}, fmt.Sprintf("%x|%x|%x|%v%v%v", q0, be8(1), be8(7), nil, nil, nil)})
 	return ops
 }
 
